@@ -309,6 +309,122 @@ theorem expDigits_lt10 (bits prec : Nat) : ∀ d ∈ (expDigits bits prec).1, d 
   · simp only
     split <;> exact natDigits_lt10 _
 
+
+/-! ### `ofRat` is exact on representable values -/
+
+theorem log2_mul_two_pow (m k : Nat) (hm : m ≠ 0) : Nat.log2 (m * 2 ^ k) = Nat.log2 m + k := by
+  have hne : m * 2 ^ k ≠ 0 := Nat.mul_ne_zero hm (Nat.pos_iff_ne_zero.1 (Nat.pow_pos (by omega)))
+  rw [Nat.log2_eq_iff hne]
+  have h1 := Nat.log2_self_le hm
+  have h2 : m < 2 ^ (m.log2 + 1) := Nat.lt_log2_self
+  constructor
+  · rw [Nat.pow_add]; exact Nat.mul_le_mul_right _ h1
+  · rw [show m.log2 + k + 1 = (m.log2 + 1) + k by omega, Nat.pow_add]
+    exact Nat.mul_lt_mul_of_pos_right h2 (Nat.pow_pos (by omega))
+
+/-- `ilog2` of a dyadic fraction `m·2^e` is exact -/
+theorem ilog2_scale2 (m : Nat) (e : Int) (hm : m ≠ 0) :
+    ilog2 (scale2 m 1 e).1 (scale2 m 1 e).2 = (Nat.log2 m : Int) + e := by
+  have h1 := Nat.log2_self_le hm
+  unfold scale2 ilog2
+  by_cases he : e ≥ 0
+  · simp only [he, if_true]
+    rw [log2_mul_two_pow m _ hm]
+    have : Nat.log2 1 = 0 := by decide
+    simp only [this]
+    have hs : ((m.log2 + e.toNat : Nat) : Int) - ((0 : Nat) : Int) ≥ 0 := by omega
+    simp only [hs, if_true]
+    have hge : m * 2 ^ e.toNat ≥ 1 * 2 ^ (((m.log2 + e.toNat : Nat) : Int) - ((0 : Nat) : Int)).toNat := by
+      have : (((m.log2 + e.toNat : Nat) : Int) - ((0 : Nat) : Int)).toNat = m.log2 + e.toNat := by omega
+      rw [this, Nat.one_mul, Nat.pow_add]
+      exact Nat.mul_le_mul_right _ h1
+    simp only [hge, decide_true, if_true]
+    omega
+  · simp only [he, if_false, Nat.one_mul]
+    rw [Nat.log2_two_pow]
+    by_cases hs : ((m.log2 : Nat) : Int) - (((-e).toNat : Nat) : Int) ≥ 0
+    · simp only [hs, if_true]
+      have hge : m ≥ 2 ^ (-e).toNat * 2 ^ (((m.log2 : Nat) : Int) - (((-e).toNat : Nat) : Int)).toNat := by
+        rw [← Nat.pow_add]
+        have : (-e).toNat + (((m.log2 : Nat) : Int) - (((-e).toNat : Nat) : Int)).toNat = m.log2 := by omega
+        rw [this]; exact h1
+      simp only [hge, decide_true, if_true]
+      omega
+    · simp only [hs, if_false]
+      have hge : m * 2 ^ (-(((m.log2 : Nat) : Int) - (((-e).toNat : Nat) : Int))).toNat ≥ 2 ^ (-e).toNat := by
+        generalize hj : (-(((m.log2 : Nat) : Int) - (((-e).toNat : Nat) : Int))).toNat = j
+        have : (-e).toNat = m.log2 + j := by omega
+        rw [this, Nat.pow_add]
+        exact Nat.mul_le_mul_right _ h1
+      simp only [hge, decide_true, if_true]
+      omega
+
+theorem scale2_scale2_exact (mm : Nat) (ee E : Int) (h : E ≤ ee) :
+    (scale2 (scale2 mm 1 ee).1 (scale2 mm 1 ee).2 (-E)).1 =
+      mm * 2 ^ (ee - E).toNat * (scale2 (scale2 mm 1 ee).1 (scale2 mm 1 ee).2 (-E)).2 ∧
+    0 < (scale2 (scale2 mm 1 ee).1 (scale2 mm 1 ee).2 (-E)).2 := by
+  unfold scale2
+  by_cases h1 : ee ≥ 0
+  · simp only [h1, if_true]
+    by_cases h2 : -E ≥ 0
+    · simp only [h2, if_true, Nat.mul_one]
+      refine ⟨?_, by omega⟩
+      rw [Nat.mul_assoc, ← Nat.pow_add]
+      congr 2; omega
+    · simp only [h2, if_false, Nat.one_mul]
+      refine ⟨?_, Nat.pow_pos (by omega)⟩
+      rw [Nat.mul_assoc, ← Nat.pow_add]
+      congr 2; omega
+  · simp only [h1, if_false, Nat.one_mul]
+    have h2 : -E ≥ 0 := by omega
+    simp only [h2, if_true]
+    refine ⟨?_, Nat.pow_pos (by omega)⟩
+    rw [Nat.mul_assoc, ← Nat.pow_add]
+    congr 2; omega
+
+/-- `ofRat` is exact on representable dyadic values: for `m·2^e = M·2^E` with `(M, E)` in canonical
+    form (`2^52 ≤ M < 2^53`, or `M < 2^52` with `E = -1074`) it assembles exactly those fields. -/
+theorem ofRat_pow2 (neg : Bool) (mm : Nat) (ee : Int) (M : Nat) (E : Int)
+    (hm : mm ≠ 0) (hE1 : -1074 ≤ E) (hE2 : E ≤ 971) (heE : E ≤ ee)
+    (hM : M = mm * 2 ^ (ee - E).toNat) (hM53 : M < 2 ^ 53) (hcanon : 2 ^ 52 ≤ M ∨ E = -1074) :
+    ofRat neg (scale2 mm 1 ee).1 (scale2 mm 1 ee).2 =
+      (if neg then 2 ^ 63 else 0) +
+        (if M < 2 ^ 52 then M else (E + 1075).toNat * 2 ^ 52 + (M - 2 ^ 52)) := by
+  have hM0 : M ≠ 0 := by
+    rw [hM]; exact Nat.mul_ne_zero hm (Nat.pos_iff_ne_zero.1 (Nat.pow_pos (by omega)))
+  have hlog : (Nat.log2 M : Int) = Nat.log2 mm + (ee - E) := by
+    rw [hM, log2_mul_two_pow mm _ hm]; omega
+  have hlogM : Nat.log2 M ≤ 52 := by
+    have := (Nat.log2_lt hM0 (k := 53)).2 hM53; omega
+  have hnum0 : (scale2 mm 1 ee).1 ≠ 0 := by
+    unfold scale2; split
+    · exact Nat.mul_ne_zero hm (Nat.pos_iff_ne_zero.1 (Nat.pow_pos (by omega)))
+    · exact hm
+  obtain ⟨hx1, hx2⟩ := scale2_scale2_exact mm ee E heE
+  have hil := ilog2_scale2 mm ee hm
+  unfold ofRat
+  simp only [beq_iff_eq, hnum0, if_false]
+  rw [hil]
+  have hsel : (if (Nat.log2 mm : Int) + ee - 52 < -1074 then (-1074 : Int) else (Nat.log2 mm : Int) + ee - 52) = E := by
+    rcases hcanon with hc | hc
+    · have : Nat.log2 M = 52 := by
+        have := (Nat.le_log2 hM0 (k := 52)).2 hc; omega
+      split <;> omega
+    · split <;> omega
+  rw [hsel]
+  rw [show (scale2 (scale2 mm 1 ee).1 (scale2 mm 1 ee).2 (-E)) =
+    ((scale2 (scale2 mm 1 ee).1 (scale2 mm 1 ee).2 (-E)).1, (scale2 (scale2 mm 1 ee).1 (scale2 mm 1 ee).2 (-E)).2) from rfl]
+  simp only
+  rw [hx1, ← hM, roundHalfEven_exact M _ hx2]
+  have hn53 : ¬ (M ≥ 2 ^ 53) := by omega
+  simp only [hn53, if_false]
+  by_cases hsub : M < 2 ^ 52
+  · simp only [hsub, if_true]
+  · simp only [hsub, if_false]
+    have : ¬ ((E + 1075).toNat ≥ 2047) := by omega
+    simp only [this, if_false]
+    omega
+
 end PV.Dec
 
 namespace PV.C17
@@ -1069,5 +1185,407 @@ theorem mem_trimWith {p : Nat → Bool} {l : List Nat} {c : Nat} (h : c ∈ trim
   have h1 := (List.dropWhile_sublist p).subset h
   rw [List.mem_reverse] at h1
   exact (List.dropWhile_sublist p).subset h1
+
+
+/-! ### hexf: reading rendered hex digits back -/
+
+theorem hexVal_hexDig (v : Nat) (h : v < 16) : hexVal (hexDig v) = some v := by
+  unfold hexVal hexDig
+  by_cases h10 : v < 10
+  · simp only [h10, if_true]
+    have : 48 ≤ 48 + v ∧ 48 + v ≤ 57 := by omega
+    simp only [this, and_self, if_true]
+    congr 1; omega
+  · simp only [h10, if_false]
+    have a : ¬ (48 ≤ 87 + v ∧ 87 + v ≤ 57) := by omega
+    have b : 97 ≤ 87 + v ∧ 87 + v ≤ 102 := by omega
+    simp only [a, b, and_self, if_true, if_false]
+    congr 1; omega
+
+/-- value of a list of hex digit values, most significant first -/
+def ofHex (vs : List Nat) : Nat := vs.foldl (fun a v => 16 * a + v) 0
+
+theorem ofHex_cons (v : Nat) (vs : List Nat) : ofHex (v :: vs) = v * 16 ^ vs.length + ofHex vs := by
+  unfold ofHex
+  have gen : ∀ (l : List Nat) (a : Nat), l.foldl (fun a v => 16 * a + v) a = a * 16 ^ l.length + l.foldl (fun a v => 16 * a + v) 0 := by
+    intro l
+    induction l with
+    | nil => intro a; simp
+    | cons x xs ih =>
+      intro a
+      simp only [List.foldl_cons, List.length_cons]
+      rw [ih (16 * a + x), ih (16 * 0 + x), Nat.pow_succ]
+      simp only [Nat.mul_zero, Nat.zero_add, Nat.add_mul]
+      rw [Nat.mul_comm (16 ^ xs.length) 16, ← Nat.mul_assoc, Nat.mul_comm a 16]
+      omega
+  simp only [List.foldl_cons, Nat.mul_zero, Nat.zero_add]
+  exact gen vs v
+
+theorem pow16 (n : Nat) : 16 ^ n = 2 ^ (4 * n) := by
+  rw [Nat.pow_mul]
+
+/-- The fraction loop of hexf over rendered hex digits: the accumulated mantissa times the pending
+    zero digits is the positional value of everything read. -/
+theorem hexfFrac_digits (vs : List Nat) (rest : List Nat)
+    (hrest : ∀ c, rest.head? = some c → hexVal c = none) :
+    ∀ (acc nf nz : Nat) (seen : Bool), (∀ v ∈ vs, v < 16) →
+      acc * 16 ^ nz < 2 * 16 ^ (nf + nz) → nf + nz + vs.length ≤ 13 →
+      ∃ acc' nf' nz' seen', hexfFrac (vs.map hexDig ++ rest) acc nf nz seen = some (acc', nf', seen', rest) ∧
+        acc' * 16 ^ nz' = acc * 16 ^ nz * 16 ^ vs.length + ofHex vs ∧ nf' + nz' = nf + nz + vs.length ∧
+        (seen' = (seen || !vs.isEmpty)) := by
+  induction vs with
+  | nil =>
+    intro acc nf nz seen _ _ _
+    refine ⟨acc, nf, nz, seen, ?_, by simp [ofHex], by simp, by simp⟩
+    cases rest with
+    | nil => simp [hexfFrac]
+    | cons c r =>
+      have := hrest c rfl
+      simp [hexfFrac, this]
+  | cons v vs ih =>
+    intro acc nf nz seen hv hb hl
+    have hv16 : v < 16 := hv v (by simp)
+    have hvs : ∀ x ∈ vs, x < 16 := fun x hx => hv x (by simp [hx])
+    simp only [List.length_cons] at hl
+    simp only [List.map_cons, List.cons_append]
+    unfold hexfFrac
+    rw [hexVal_hexDig v hv16]
+    have hpos : 0 < 16 ^ nz := Nat.pow_pos (by omega)
+    by_cases hv0 : v = 0
+    · subst hv0
+      simp only
+      have hb' : acc * 16 ^ (nz + 1) < 2 * 16 ^ (nf + (nz + 1)) := by
+        rw [Nat.pow_succ, ← Nat.add_assoc, Nat.pow_succ, ← Nat.mul_assoc, ← Nat.mul_assoc]
+        omega
+      obtain ⟨a', f', z', s', e1, e2, e3, e4⟩ := ih acc nf (nz + 1) true hvs hb' (by omega)
+      refine ⟨a', f', z', s', e1, ?_, by simp only [List.length_cons]; omega, by simp [e4]⟩
+      rw [e2, ofHex_cons]
+      simp only [List.length_cons, Nat.zero_mul, Nat.zero_add]
+      rw [Nat.pow_succ 16 nz, Nat.pow_succ 16 vs.length]
+      rw [Nat.mul_assoc, Nat.mul_assoc, Nat.mul_assoc, Nat.mul_comm 16 (16 ^ vs.length)]
+    · have hacc : acc < 2 * 16 ^ nf := by
+        rw [Nat.pow_add, ← Nat.mul_assoc] at hb
+        exact Nat.lt_of_mul_lt_mul_right hb
+      have hnew : (acc * 16 ^ (nz + 1) + v) * 16 ^ 0 < 2 * 16 ^ (nf + (nz + 1) + 0) := by
+        simp only [Nat.pow_zero, Nat.mul_one, Nat.add_zero]
+        rw [Nat.pow_succ, ← Nat.add_assoc, Nat.pow_succ, ← Nat.mul_assoc, ← Nat.mul_assoc]
+        omega
+      obtain ⟨a', f', z', s', e1, e2, e3, e4⟩ := ih (acc * 16 ^ (nz + 1) + v) (nf + (nz + 1)) 0 true hvs hnew (by omega)
+      have hres : acc * 16 ^ nz * 16 ^ (v :: vs).length + ofHex (v :: vs) =
+          (acc * 16 ^ (nz + 1) + v) * 16 ^ 0 * 16 ^ vs.length + ofHex vs := by
+        rw [ofHex_cons]
+        simp only [List.length_cons, Nat.pow_zero, Nat.mul_one]
+        rw [Nat.pow_succ 16 nz, Nat.pow_succ 16 vs.length, Nat.add_mul]
+        rw [Nat.mul_assoc, Nat.mul_assoc, Nat.mul_assoc, Nat.mul_comm 16 (16 ^ vs.length)]
+        omega
+      cases v with
+      | zero => exact absurd rfl hv0
+      | succ w =>
+        simp only
+        by_cases hz : acc = 0
+        · subst hz
+          simp only [ne_eq, not_true_eq_false, if_false]
+          simp only [Nat.zero_mul, Nat.zero_add] at e1 e2 hres ⊢
+          exact ⟨a', f', z', s', e1, by rw [e2]; simp [hres], by simp only [List.length_cons]; omega, by simp [e4]⟩
+        · have hsmall : acc / 2 ^ (64 - (nz + 1) * 4) = 0 := by
+            apply Nat.div_eq_of_lt
+            have : 2 * 16 ^ nf ≤ 2 ^ (64 - (nz + 1) * 4) := by
+              rw [pow16, ← Nat.pow_succ']
+              exact Nat.pow_le_pow_right (by omega) (by omega)
+            omega
+          have hn16 : ¬ (nz + 1 ≥ 16) := by omega
+          simp only [ne_eq, hz, not_false_eq_true, if_true, hn16, hsmall, not_true_eq_false, or_self, if_false]
+          rw [show 2 ^ ((nz + 1) * 4) = 16 ^ (nz + 1) by rw [pow16, Nat.mul_comm]]
+          exact ⟨a', f', z', s', e1, by rw [e2, hres], by simp only [List.length_cons]; omega, by simp [e4]⟩
+
+
+/-- hex digit values of `n` in `k` positions, most significant first -/
+def hexVals : Nat → Nat → List Nat
+  | 0, _ => []
+  | k + 1, n => hexVals k (n / 16) ++ [n % 16]
+
+theorem hexFixed_eq_map (k : Nat) : ∀ n, hexFixed k n = (hexVals k n).map hexDig := by
+  induction k with
+  | zero => intro n; rfl
+  | succ k ih => intro n; simp [hexFixed, hexVals, ih]
+
+theorem hexVals_length (k : Nat) : ∀ n, (hexVals k n).length = k := by
+  induction k with
+  | zero => intro n; rfl
+  | succ k ih => intro n; simp [hexVals, ih]
+
+theorem hexVals_lt16 (k : Nat) : ∀ n, ∀ v ∈ hexVals k n, v < 16 := by
+  induction k with
+  | zero => intro n v hv; simp [hexVals] at hv
+  | succ k ih =>
+    intro n v hv
+    simp only [hexVals, List.mem_append, List.mem_singleton] at hv
+    rcases hv with hv | rfl
+    · exact ih _ v hv
+    · omega
+
+theorem ofHex_snoc (xs : List Nat) (v : Nat) : ofHex (xs ++ [v]) = 16 * ofHex xs + v := by
+  simp [ofHex, List.foldl_append]
+
+theorem ofHex_hexVals (k : Nat) : ∀ n, n < 16 ^ k → ofHex (hexVals k n) = n := by
+  induction k with
+  | zero => intro n hn; simp at hn; subst hn; rfl
+  | succ k ih =>
+    intro n hn
+    rw [Nat.pow_succ] at hn
+    rw [hexVals, ofHex_snoc, ih (n / 16) (by omega)]
+    omega
+
+theorem foldl_dec_ge (ds : List Nat) : ∀ e, e ≤ ds.foldl (fun a d => 10 * a + d) e := by
+  induction ds with
+  | nil => intro e; exact Nat.le_refl _
+  | cons d r ih =>
+    intro e
+    simp only [List.foldl_cons]
+    have := ih (10 * e + d)
+    omega
+
+/-- exponent loop of hexf over rendered decimal digits -/
+theorem hexfExp_digits (ds : List Nat) (h : ∀ d ∈ ds, d < 10) :
+    ∀ (e : Nat) (seen : Bool), (seen = true ∨ ds ≠ []) →
+      ds.foldl (fun a d => 10 * a + d) e ≤ isizeMax →
+      hexfExp (showDigits ds) e seen true = some (some (ds.foldl (fun a d => 10 * a + d) e)) := by
+  induction ds with
+  | nil =>
+    intro e seen hs _
+    have : seen = true := by rcases hs with h | h; exact h; exact absurd rfl h
+    simp [hexfExp, showDigits, this]
+  | cons d r ih =>
+    intro e seen _ hb
+    have hd : isDigit (48 + d) = true := isDigit_show d (h d (by simp))
+    simp only [showDigits_cons, List.foldl_cons] at hb ⊢
+    unfold hexfExp
+    simp only [hd, if_true]
+    have e1 : e * 10 + (48 + d - 48) = 10 * e + d := by omega
+    rw [e1]
+    have hle : 10 * e + d ≤ isizeMax := Nat.le_trans (foldl_dec_ge r _) hb
+    have : ¬ (10 * e + d > isizeMax) := by omega
+    simp only [this, if_false]
+    exact ih (fun x hx => h x (by simp [hx])) (10 * e + d) true (Or.inl rfl) hb
+
+
+theorem parseHexf64_shape (neg : Bool) (lead : Nat) (hl : lead ≤ 1) (vs : List Nat)
+    (hvs : ∀ v ∈ vs, v < 16) (hlen : vs.length = 13) (sgn : Nat) (hsgn : sgn = 43 ∨ sgn = 45)
+    (ds : List Nat) (hds : ∀ d ∈ ds, d < 10) (hne : ds ≠ []) (hbound : ofDigits ds ≤ isizeMax)
+    (hM : lead * 16 ^ 13 + ofHex vs ≠ 0) :
+    ∃ acc' nf' nz' : Nat, acc' * 16 ^ nz' = lead * 16 ^ 13 + ofHex vs ∧ nf' + nz' = 13 ∧
+      parseHexf64 ((if neg then [45] else []) ++
+          48 :: 120 :: (48 + lead) :: 46 :: (vs.map hexDig ++ 112 :: sgn :: showDigits ds)) =
+        hexfConvert neg acc' ((if sgn = 45 then -(ofDigits ds : Int) else (ofDigits ds : Int)) - 4 * (nf' : Int)) := by
+  have hrest : ∀ c, (112 :: sgn :: showDigits ds).head? = some c → hexVal c = none := by
+    intro c hc; simp at hc; subst hc; decide
+  obtain ⟨acc', nf', nz', seen', e1, e2, e3, _⟩ :=
+    hexfFrac_digits vs (112 :: sgn :: showDigits ds) hrest lead 0 0 false hvs (by simp; omega) (by omega)
+  simp only [Nat.pow_zero, Nat.mul_one, Nat.zero_add, hlen] at e2 e3
+  refine ⟨acc', nf', nz', e2, e3, ?_⟩
+  have hacc : acc' ≠ 0 := by
+    intro h; rw [h] at e2; simp at e2; omega
+  unfold parseHexf64
+  have hnonempty : ((if neg then [45] else []) ++
+      48 :: 120 :: (48 + lead) :: 46 :: (vs.map hexDig ++ 112 :: sgn :: showDigits ds)).isEmpty = false := by
+    cases neg <;> simp
+  rw [hnonempty]
+  simp only [Bool.false_eq_true, if_false]
+  rw [splitSign_sign neg 48 _ (by decide)]
+  simp only
+  have hlv : hexVal (48 + lead) = some lead := by
+    have : lead = 0 ∨ lead = 1 := by omega
+    rcases this with rfl | rfl <;> decide
+  have hint : hexfInt ((48 + lead) :: 46 :: (vs.map hexDig ++ 112 :: sgn :: showDigits ds)) 0 false =
+      some (lead, true, 46 :: (vs.map hexDig ++ 112 :: sgn :: showDigits ds)) := by
+    unfold hexfInt
+    simp only [hlv]
+    unfold hexfInt
+    have : hexVal 46 = none := by decide
+    simp [this, u64Lim]
+  simp only [show ¬ ((120 : Nat) ≠ 120 ∧ (120 : Nat) ≠ 88) by decide, if_false, hint, e1]
+  simp only [Bool.true_or, Bool.not_true, Bool.false_eq_true, if_false]
+  simp only [show ¬ ((112 : Nat) ≠ 112 ∧ (112 : Nat) ≠ 80) by decide, if_false]
+  have hs : (sgn :: showDigits ds).isEmpty = false := rfl
+  simp only [hs, Bool.false_eq_true, if_false]
+  have hexp := hexfExp_digits ds hds 0 false (Or.inr hne) (by simpa [ofDigits] using hbound)
+  have hacc' : decide (acc' ≠ 0) = true := by simpa using hacc
+  rcases hsgn with rfl | rfl
+  · simp only [splitSign, hacc', hexp, hacc, if_false]
+    simp [ofDigits]
+  · simp only [splitSign, hacc', hexp, hacc, if_false]
+    simp [ofDigits]
+
+
+theorem showSigned_value (x : Int) :
+    ∃ sgn ds, showSigned x = sgn :: showDigits ds ∧ (sgn = 43 ∨ sgn = 45) ∧ (∀ d ∈ ds, d < 10) ∧ ds ≠ [] ∧
+      ofDigits ds = x.natAbs ∧ (if sgn = 45 then -(ofDigits ds : Int) else (ofDigits ds : Int)) = x := by
+  refine ⟨if x < 0 then 45 else 43, natDigits x.natAbs, rfl, ?_, natDigits_lt10 _, natDigits_ne_nil _,
+    ofDigits_natDigits _, ?_⟩
+  · split <;> simp
+  · rw [ofDigits_natDigits]
+    split <;> simp <;> omega
+
+
+/-! ### hexf conversion -/
+
+theorem trailingZeros_spec (fuel : Nat) : ∀ n, 0 < n → n < 2 ^ fuel →
+    n = n / 2 ^ trailingZeros fuel n * 2 ^ trailingZeros fuel n ∧ (n / 2 ^ trailingZeros fuel n) % 2 = 1 := by
+  induction fuel with
+  | zero => intro n h0 hn; simp at hn; omega
+  | succ f ih =>
+    intro n h0 hn
+    unfold trailingZeros
+    split
+    · rename_i hodd; simp [hodd]
+    · rename_i hev
+      have hn2 : n / 2 < 2 ^ f := by rw [Nat.pow_succ] at hn; omega
+      obtain ⟨a, b⟩ := ih (n / 2) (by omega) hn2
+      generalize trailingZeros f (n / 2) = t at *
+      have e1 : n / 2 ^ (1 + t) = n / 2 / 2 ^ t := by
+        rw [Nat.add_comm, Nat.pow_succ, Nat.mul_comm, ← Nat.div_div_eq_div_mul]
+      rw [e1]
+      refine ⟨?_, b⟩
+      rw [Nat.add_comm 1 t, Nat.pow_succ, ← Nat.mul_assoc, ← a]
+      omega
+
+/-- hexf's conversion is exact on a representable value `mantissa·2^exponent = M·2^E`
+    (`(M, E)` canonical; the equation is stated after scaling both sides by `2^1075`). -/
+theorem hexfConvert_exact (neg : Bool) (mantissa : Nat) (exponent : Int) (M : Nat) (E : Int)
+    (hm0 : mantissa ≠ 0) (hm64 : mantissa < 2 ^ 64) (hex : -1075 ≤ exponent ∧ exponent ≤ 0xffff)
+    (hE1 : -1074 ≤ E) (hE2 : E ≤ 971)
+    (hval : mantissa * 2 ^ (exponent + 1075).toNat = M * 2 ^ (E + 1075).toNat)
+    (hM53 : M < 2 ^ 53) (hcanon : 2 ^ 52 ≤ M ∨ E = -1074) :
+    hexfConvert neg mantissa exponent = some ((if neg then 2 ^ 63 else 0) +
+        (if M < 2 ^ 52 then M else (E + 1075).toNat * 2 ^ 52 + (M - 2 ^ 52))) := by
+  obtain ⟨t1, t2⟩ := trailingZeros_spec 64 mantissa (by omega) hm64
+  unfold hexfConvert
+  have hr : ¬ (exponent < -0xffff ∨ exponent > 0xffff) := by omega
+  simp only [hr, hm0, if_false]
+  generalize trailingZeros 64 mantissa = tz at *
+  generalize hmm : mantissa / 2 ^ tz = m at *
+  have hmne : m ≠ 0 := by intro h; rw [h] at t2; simp at t2
+  generalize ha : (exponent + 1075).toNat = a at hval
+  generalize hbb : (E + 1075).toNat = b at hval
+  have hval' : m * 2 ^ (tz + a) = M * 2 ^ b := by
+    rw [Nat.pow_add, ← Nat.mul_assoc, ← t1]; exact hval
+  have hle : b ≤ tz + a := by
+    apply Classical.byContradiction
+    intro hnot
+    have hsplit : 2 ^ b = 2 ^ (b - (tz + a)) * 2 ^ (tz + a) := by
+      rw [← Nat.pow_add]; congr 1; omega
+    rw [hsplit, ← Nat.mul_assoc] at hval'
+    have hcancel := Nat.eq_of_mul_eq_mul_right (Nat.pow_pos (by omega)) hval'
+    have : 2 ^ (b - (tz + a)) = 2 * 2 ^ (b - (tz + a) - 1) := by
+      rw [← Nat.pow_succ']; congr 1; omega
+    rw [this] at hcancel
+    rw [hcancel, ← Nat.mul_assoc, Nat.mul_comm M 2, Nat.mul_assoc] at t2
+    omega
+  have hM' : M = m * 2 ^ (exponent + tz - E).toNat := by
+    have hsplit : 2 ^ (tz + a) = 2 ^ (tz + a - b) * 2 ^ b := by
+      rw [← Nat.pow_add]; congr 1; omega
+    rw [hsplit, ← Nat.mul_assoc] at hval'
+    have hcancel := Nat.eq_of_mul_eq_mul_right (Nat.pow_pos (by omega)) hval'
+    rw [← hcancel]
+    congr 2; omega
+  have hM0 : M ≠ 0 := by
+    rw [hM']; exact Nat.mul_ne_zero hmne (Nat.pos_iff_ne_zero.1 (Nat.pow_pos (by omega)))
+  have hlog : (Nat.log2 M : Int) = Nat.log2 m + (exponent + tz - E) := by
+    rw [hM', log2_mul_two_pow m _ hmne]; omega
+  have hlogM : Nat.log2 M ≤ 52 := by
+    have := (Nat.log2_lt hM0 (k := 53)).2 hM53; omega
+  have hmle : m ≤ M := by
+    rw [hM']; exact Nat.le_mul_of_pos_right _ (Nat.pow_pos (by omega))
+  have hn1 : ¬ (exponent + (tz : Int) + (Nat.log2 m : Int) < -1074) := by omega
+  have hn2 : ¬ (exponent + (tz : Int) + (Nat.log2 m : Int) ≥ 1024) := by omega
+  simp only [hn1, hn2, if_false]
+  have hsize : m / 2 ^ (if exponent + (tz : Int) + (Nat.log2 m : Int) < -1022
+      then exponent + (tz : Int) + (Nat.log2 m : Int) + 1075 else 53).toNat = 0 := by
+    apply Nat.div_eq_of_lt
+    split
+    · rename_i hlt
+      have hE : E = -1074 := by
+        rcases hcanon with hc | hc
+        · have : Nat.log2 M = 52 := by
+            have := (Nat.le_log2 hM0 (k := 52)).2 hc; omega
+          omega
+        · exact hc
+      have : (exponent + (tz : Int) + (Nat.log2 m : Int) + 1075).toNat = Nat.log2 M + 1 := by omega
+      rw [this]
+      exact Nat.lt_of_le_of_lt hmle Nat.lt_log2_self
+    · exact Nat.lt_of_le_of_lt hmle hM53
+  simp only [hsize, if_true]
+  rw [show scale2 m 1 (exponent + (tz : Int)) = ((scale2 m 1 (exponent + (tz : Int))).1, (scale2 m 1 (exponent + (tz : Int))).2) from rfl]
+  simp only
+  rw [ofRat_pow2 neg m (exponent + tz) M E hmne hE1 hE2 (by omega) hM' hM53 hcanon, hbb]
+
+
+theorem bits_fields (bits : Nat) (hb : bits < 2 ^ 64) :
+    bits = (if isNeg bits then 2 ^ 63 else 0) + expField bits * 2 ^ 52 + fracField bits := by
+  unfold isNeg expField fracField
+  by_cases h : bits / 2 ^ 63 % 2 = 1
+  · simp only [h, beq_self_eq_true, if_true]; omega
+  · have : (bits / 2 ^ 63 % 2 == 1) = false := by simpa using h
+    simp only [this, Bool.false_eq_true, if_false]; omega
+
+/-- hexf's conversion recovers every finite non-zero double from the pair read off `to_hex`'s text -/
+theorem hexFacts_all (bits : Nat) (hb : bits < 2 ^ 64) (hf : isFinite bits = true)
+    (hz : isZero bits = false) : HexFacts bits := by
+  have hfr := fracField_lt bits
+  have hexp : expField bits < 2048 := Nat.mod_lt _ (by omega)
+  have hfin : expField bits ≠ 2047 := by simpa [isFinite] using hf
+  have hbf := bits_fields bits hb
+  intro k hk hdiv
+  unfold integerDecode at hdiv ⊢
+  simp only at hdiv ⊢
+  generalize hmant : (if expField bits = 0 then fracField bits * 2 else fracField bits + 2 ^ 52) = mant at *
+  have h16 : 0 < 16 ^ k := Nat.pow_pos (by omega)
+  have hq : mant = mant / 16 ^ k * 16 ^ k := by
+    have := Nat.div_add_mod mant (16 ^ k)
+    rw [hdiv, Nat.add_zero, Nat.mul_comm] at this; exact this.symm
+  have hmant0 : mant ≠ 0 := by
+    rw [← hmant]
+    split
+    · rename_i he
+      simp only [isZero, he, beq_self_eq_true, Bool.true_and, beq_eq_false_iff_ne] at hz
+      omega
+    · omega
+  have hq0 : mant / 16 ^ k ≠ 0 := by
+    intro h; rw [h, Nat.zero_mul] at hq; exact hmant0 hq
+  have hmant53 : mant < 2 ^ 53 := by rw [← hmant]; split <;> omega
+  have hq64 : mant / 16 ^ k < 2 ^ 64 := by
+    have := Nat.div_le_self mant (16 ^ k); omega
+  by_cases he : expField bits = 0
+  · -- subnormal: M = frac, E = -1074; mant = 2·frac, exponent -1075
+    simp only [he, if_true] at hmant
+    have := hexfConvert_exact (isNeg bits) (mant / 16 ^ k) ((expField bits : Int) - 1075 + 4 * (k : Int))
+      (fracField bits) (-1074) hq0 hq64 (by omega) (by omega) (by omega)
+      (by
+        have e1 : ((expField bits : Int) - 1075 + 4 * (k : Int) + 1075).toNat = 4 * k := by omega
+        have e2 : ((-1074 : Int) + 1075).toNat = 1 := by decide
+        rw [e1, e2, Nat.pow_mul, show (2 : Nat) ^ 4 = 16 by decide, ← hq, ← hmant])
+      (by omega) (Or.inr rfl)
+    rw [this]
+    have : fracField bits < 2 ^ 52 := hfr
+    simp only [this, if_true]
+    congr 1
+    rw [he] at hbf; omega
+  · simp only [he, if_false] at hmant
+    have := hexfConvert_exact (isNeg bits) (mant / 16 ^ k) ((expField bits : Int) - 1075 + 4 * (k : Int))
+      (fracField bits + 2 ^ 52) ((expField bits : Int) - 1075) hq0 hq64 (by omega) (by omega) (by omega)
+      (by
+        have e1 : ((expField bits : Int) - 1075 + 4 * (k : Int) + 1075).toNat = expField bits + 4 * k := by omega
+        have e2 : ((expField bits : Int) - 1075 + 1075).toNat = expField bits := by omega
+        rw [e1, e2, Nat.pow_add, Nat.pow_mul, show (2 : Nat) ^ 4 = 16 by decide]
+        rw [Nat.mul_comm (2 ^ expField bits), ← Nat.mul_assoc, ← hq, hmant])
+      (by omega) (Or.inl (by omega))
+    rw [this]
+    have : ¬ (fracField bits + 2 ^ 52 < 2 ^ 52) := by omega
+    simp only [this, if_false]
+    refine congrArg some ?_
+    have e2 : ((expField bits : Int) - 1075 + 1075).toNat = expField bits := by omega
+    rw [e2]
+    generalize (if isNeg bits = true then 2 ^ 63 else 0) = sg at *
+    omega
 
 end PV.C17
